@@ -226,22 +226,29 @@ class Translator:
         return False
 
     def add_site(self, key, f, kind, ty, arr, res):
+        hint = self.spec.get('site_types', {}).get(key)
+        if hint:
+            ty, _ = self.T.parse(hint)
         s = dict(key=key, fn=f, kind=kind, ty=ty, arr=arr, res=res, id=len(self.sites))
         self.sites.append(s)
         self.site_by_key[(f, res)] = s
         return s
 
     def result_cast_type(self, fn, res):
-        """pointee type the allocation result is cast to (first bitcast user), else i8"""
+        """pointee type of the allocation: a hint from the harness spec, else the (largest) named struct type the result is
+        bitcast to, else the declared type T of a T** slot it is stored into, else unknown (i8: candidate of every set)"""
+        best = None
         pat = re.compile(r'= bitcast i8\* ' + re.escape(res) + r' to (.*)$')
         for b in fn.blocks:
             for ins in b.insts:
                 m = pat.search(ins)
                 if m:
                     t, _ = self.T.parse(m.group(1))
-                    if t[0] == 'ptr':
-                        return t[1]
-        # stored (as i8*) into a slot whose declared type is T**  ->  T
+                    if t[0] == 'ptr' and t[1][0] == 'named' and self.T.resolve(t[1])[0] == 'lit':
+                        if best is None or self.T.size_align(t[1])[0] > self.T.size_align(best)[0]:
+                            best = t[1]
+        if best is not None:
+            return best
         pat2 = re.compile(r'^store i8\* ' + re.escape(res) + r', i8\*\* bitcast \((.*?) to i8\*\*\)')
         for b in fn.blocks:
             for ins in b.insts:
@@ -249,7 +256,7 @@ class Translator:
                 if m:
                     try:
                         t, k = self.T.parse(m.group(1))
-                        if t[0] == 'ptr' and t[1][0] == 'ptr':
+                        if t[0] == 'ptr' and t[1][0] == 'ptr' and t[1][1][0] == 'named':
                             return t[1][1]
                     except IRError:
                         pass
@@ -615,7 +622,10 @@ class Translator:
             it, iv, _ = self.m.parse_tv(a)
             idxs.append((it, iv))
         _, (sn, so), _ = self.gep(bty, '0UL', [(it, iv if re.fullmatch(r'-?\d+', iv.strip()) else '0') for it, iv in idxs])
-        if sn.startswith('arr:i8') and sn == 'arr:i8':
+        if sn == 'arr:i8':
+            base = self.addr_sig(fname, pt, pv, seen, depth + 1)
+            if base is not None and base and all(x[0] in ('obj', 'site', 'priv') for x in base):
+                return base
             return None
         if sn.startswith('arr:') or sn.startswith('lit:'):
             # scalar-element pointer arithmetic: keep the base's signature when the base is exact
